@@ -770,7 +770,7 @@ class World:
             if r is None or not any(n == "i" and ty == "usize" for (n, ty, _) in parse_fields(s, r[1], r[2])):
                 raise ScanError("%s: %s has no `i: usize` field" % (s.rel, sty))
             return int(ms[0].strip())
-        if self.has(sname, "i"):
+        if self.has(sname, "i") and sname in [b for (_, b) in SIMS]:
             # simulation-level counter: read from `new`
             s = self.src[st["file"]]
             fn = find_fn(s, find_impls(s, re.escape(sname)), "new")
